@@ -610,6 +610,8 @@ def section9():
                "`/repo` (nothing from `/verif`), asked to break the property while the code still compiles and the existing tests "
                "pass, and to demonstrate the break. Each was confirmed, then applied to `/repo` (`git apply`), checked with the "
                "quick tier, and undone. `how` says which part of the check fired.\n")
+    n5 = len([j for j in rows if re.search(r"-e\d$", j.get("id", ""))])
+    m5 = len([j for j in rows if re.search(r"-e\d$", j.get("id", "")) and j.get("note")])
     n4 = len([j for j in rows if re.search(r"-d\d$", j.get("id", ""))])
     m4 = len([j for j in rows if re.search(r"-d\d$", j.get("id", "")) and j.get("note")])
     n3 = len([j for j in rows if re.search(r"-c\d$", j.get("id", ""))])
@@ -622,7 +624,8 @@ def section9():
                f"listed below. A fourth round (`Cxx-d1/d2`, {n4} changes, fourth session) was run the same way: {m4} were missed when first tried "
                f"(the listener side once more, applications that drop futures or restate credit in the end-to-end runs, delivery-counts at the wrap, "
                f"peers that encode differently from us, legal-but-unusual frames, totals across several arrays, queues that are full at the wrong moment); "
-               f"every one is caught now, and seven of them also by a proof obligation that did not exist before.\n")
+               f"every one is caught now, and seven of them also by a proof obligation that did not exist before. A short fifth round (`Cxx-e1/e2`, {n5} changes "
+               f"for six properties whose checks had been extended in the fourth session: C02, C06, C10, C12, C14, C17) followed at the end of that session: {m5} first missed.\n")
     out += ["| id | property | the change | caught by quick | how | caught by other checks |", "|---|---|---|---|---|---|"]
     for j in rows:
         summ = j.get('summary', '').replace('|', '/')
